@@ -18,7 +18,10 @@ def job_ops(job, plan):
     ops.append("eoistyle %d" % rng.below(6))   # how end-of-input is said and how the drain calls look (harness/cr/trace.c after_end)
     ops.append("nullout %d" % rng.below(2))    # a call that asks for 0 frames passes out == NULL (soxr.h allows it)
     cap = [10 ** 9, 60, 3000, 10 ** 9][rng.below(4)]
-    for i in range(rng.choice([3, 10, 40, 120])):
+    if job.get("blocks"):        # huge decimation (checks/c03.make_job): blocks of about one output period, little output room
+        for i in range(min(80, job["N"] // max(1, job["blocks"]) + 2)):
+            ops += ["feed %d %d 0" % (job["blocks"], rng.choice([8, 1, 100])), "delay"]
+    for i in range(0 if job.get("blocks") else rng.choice([3, 10, 40, 120])):
         il = min(rng.choice(sizes) if rng.chance(.6) else rng.below(3000), cap)
         ol = min(rng.choice(sizes) if rng.chance(.6) else rng.below(3000), cap)
         ops += ["feed %d %d %d" % (il, ol, rng.below(2)), "delay"]
